@@ -93,7 +93,7 @@ def h_roundtrip(ctx):
     from joserfc import jwt, jwe
     family, alg, kind = ctx.choose("transport", TRANSPORTS)
     kform = ctx.choose("key_form", ["key", "set", "callable", "set1"])
-    hdr_kind = ctx.choose("header", ["plain", "typ-explicit", "typ-JWT", "extra-members"])
+    hdr_kind = ctx.choose("header", ["plain", "typ-explicit", "typ-JWT", "typ-empty-string", "extra-members"])
     what_claims = ctx.choose("claims_kind", ["json", "datetime"])
     # an application registry is usually a subclass; an application encoder usually knows a few extra types and nothing about dates
     reg_kind = ctx.choose("registry", ["allow-list", "registry-instance", "registry-subclass"])
@@ -115,6 +115,8 @@ def h_roundtrip(ctx):
         header["typ"] = "at+jwt"
     elif hdr_kind == "typ-JWT":
         header["typ"] = "JWT"
+    elif hdr_kind == "typ-empty-string":
+        header["typ"] = ""             # explicit, though empty: it overrides the default like any other explicit value
     elif hdr_kind == "extra-members":
         header["cty"] = "x"
         header["kid"] = None  # placeholder, replaced below when a set is used
